@@ -1,5 +1,5 @@
 """Per-property pipelines.  Each function takes a vlib.Check and returns the exit code."""
-import json, os
+import json, os, re
 import vlib
 from vlib import Machinery, log
 
@@ -141,6 +141,10 @@ def group_pipeline(c, nprog_quick=240, nprog_thorough=15000, depth_quick=16, dep
     with open(sub, "w") as fh:
         for i, ln in enumerate(open(progs)):
             if i < (60 if c.tier == "quick" else 300):
+                fh.write(ln)
+    with open(sub, "a") as fh:                       # ... and the large batches of the sweep
+        for ln in open(sweep):
+            if re.search(r'"op":"B(norm|bytes|unc|map)"', ln):
                 fh.write(ln)
     for ncpu in ([3] if c.tier == "quick" else [3, 5, 7]):
         if ncpu < vlib.NCPU:
